@@ -431,11 +431,11 @@ pub fn check() -> Check {
         ],
         required: &["permutations_applied", "exchanges", "exhaustive_tuples_len3", "records_forgotten_by_their_timer", "forget_timers_without_effect", "identities_back_after_being_forgotten"],
         workloads: vec![
-            Workload { name: "perm", f: perm_case, quick: 12_000, thorough: 1_200_000, flav: Flav::Checked },
+            Workload { name: "perm", f: perm_case, quick: 40_000, thorough: 1_200_000, flav: Flav::Checked },
             Workload { name: "exh3", f: exh3, quick: 36, thorough: 36, flav: Flav::Checked },
             Workload { name: "exh4", f: exh4, quick: 0, thorough: 36, flav: Flav::Checked },
-            Workload { name: "exchange", f: exchange_case, quick: 30_000, thorough: 2_000_000, flav: Flav::Checked },
-            Workload { name: "forget", f: forget_case, quick: 30_000, thorough: 2_000_000, flav: Flav::Checked },
+            Workload { name: "exchange", f: exchange_case, quick: 100_000, thorough: 2_000_000, flav: Flav::Checked },
+            Workload { name: "forget", f: forget_case, quick: 100_000, thorough: 2_000_000, flav: Flav::Checked },
         ],
         exhaustive: false,
         aggregate: None,
